@@ -611,6 +611,12 @@ int BaseKillPlugin::tryToKillPids(const std::vector<int>& pids) {
   int nrKilled = 0;
 
   for (int pid : pids) {
+    // kill(2) with pid 0 or a negative pid signals whole process groups
+    // (pid 0: oomd's own). cgroup.procs shows 0 for processes that are not
+    // visible from oomd's pid namespace.
+    if (pid <= 0) {
+      continue;
+    }
     auto commPath = std::string("/proc/") + std::to_string(pid) + "/comm";
     auto comm = Fs::readFileByLine(commPath);
 
